@@ -84,3 +84,11 @@ class PSum:
 
     def run(self):
         return ('sum', self.dep.result)
+
+
+@labtech.task(cache=None)
+class PCtxAll:
+    n: int
+
+    def run(self):
+        return sorted(self.context.items())
